@@ -1,6 +1,7 @@
 package core
 
 import (
+	"go/constant"
 	"go/token"
 	"go/types"
 	"strings"
@@ -461,7 +462,7 @@ func GateDeep(root *ssa.Function, effects []ssa.Instruction, pass ...Lit) GateRe
 			// "filtering producer": the effect uses a value handed out by a helper that
 			// returns nothing (nil) on the paths to be dropped, and the effect is reached
 			// only when that value is not nil — then the gate is the helper's
-			if viaProducer(f, by[f], pass, &res) || viaPredicate(f, by[f], pass, &res) {
+			if viaProducer(f, by[f], pass, &res) {
 				continue
 			}
 			if f == root || depth > 4 {
@@ -661,7 +662,68 @@ func ReachableAfterDeep(root *ssa.Function, from, target ssa.Instruction) bool {
 		// both inside the same call: order is decided inside (different helpers of one call cannot happen)
 		return true
 	}
-	return ReachableFrom(After(x), y)
+	return ReachInstrFrom(After(x), y, AfterCallCuts(from, x), nil) != nil
+}
+
+// AfterCallCuts: `from` lies in a helper that returns a boolean, and cs is the call
+// through which it runs. When every return the helper can reach after `from` yields the
+// same constant, the caller's branch on the call result is decided once `from` has run:
+// the edges of the other outcome are returned (to be cut). The Go idiom is
+// `if cond && t.tryServe(...) { return }` with the effect on the helper's true path only.
+func AfterCallCuts(from, cs ssa.Instruction) map[Edge]bool {
+	if from == cs || from.Parent() == cs.Parent() {
+		return nil
+	}
+	cv, ok := cs.(*ssa.Call)
+	if !ok || cv.Call.StaticCallee() != from.Parent() {
+		return nil
+	}
+	h := from.Parent()
+	if h.Signature.Results().Len() != 1 {
+		return nil
+	}
+	var val, have bool
+	same := true
+	Instrs(h, func(in ssa.Instruction) {
+		r, ok := in.(*ssa.Return)
+		if !ok || len(r.Results) != 1 || !same || in.Block() == h.Recover {
+			return
+		}
+		if ReachInstrFrom(After(from), r, nil, nil) == nil {
+			return
+		}
+		b, isB := ConstBool(Strip(r.Results[0]))
+		if !isB || (have && b != val) {
+			same = false
+			return
+		}
+		val, have = b, true
+	})
+	if !same || !have {
+		return nil
+	}
+	cut := map[Edge]bool{}
+	for _, b := range cs.Parent().Blocks {
+		if len(b.Instrs) == 0 {
+			continue
+		}
+		iff, ok := b.Instrs[len(b.Instrs)-1].(*ssa.If)
+		if !ok {
+			continue
+		}
+		c, neg := StripNot(iff.Cond)
+		if Strip(c) != ssa.Value(cv) {
+			continue
+		}
+		// cut the edge taken when the call yields !val; Succs[0] is taken when the
+		// condition is true, i.e. when the call yields !neg
+		idx := 1
+		if neg == val {
+			idx = 0
+		}
+		cut[Edge{b, b.Succs[idx]}] = true
+	}
+	return cut
 }
 
 // RootOf follows the private call sites upwards: the outermost function of which fn is
@@ -891,15 +953,21 @@ func viaProducer(f *ssa.Function, effs []ssa.Instruction, pass []Lit, res *GateR
 	return len(effs) > 0
 }
 
-// viaPredicate: the effects are reachable only on the edge on which a boolean helper of
-// the repository returned true (resp. false), and inside that helper every return of
-// true (resp. false, or of a non-constant value) is guarded by the pass literals — the
-// gate was moved into a predicate such as entry.satisfiedBy(data).
-func viaPredicate(f *ssa.Function, effs []ssa.Instruction, pass []Lit, res *GateResult) bool {
-	target := map[*ssa.BasicBlock]bool{}
-	for _, e := range effs {
-		target[e.Block()] = true
+// predicateEdges: the branch `if helper(...)` (or `helper(...) == K`) on a private
+// predicate helper of the repository is a pass edge for the outcome that the helper can
+// only produce through pass edges of its own: every return that may yield that outcome is
+// unreachable in the helper once its pass edges (with the parameters bound to the
+// arguments of this call) are removed. `if reason := t.loopReason(...); reason != ""`,
+// `if entry != nil && t.tryServe(...) { return }`.
+var predicateDepth int
+
+func predicateEdges(f *ssa.Function, pass []Lit) (cut map[Edge]bool, perLit []int, passEdges int) {
+	perLit = make([]int, len(pass))
+	if Current == nil || predicateDepth >= 2 {
+		return nil, perLit, 0
 	}
+	predicateDepth++
+	defer func() { predicateDepth-- }()
 	for _, b := range f.Blocks {
 		if len(b.Instrs) == 0 {
 			continue
@@ -908,35 +976,62 @@ func viaPredicate(f *ssa.Function, effs []ssa.Instruction, pass []Lit, res *Gate
 		if !ok {
 			continue
 		}
+		// the condition: a boolean helper call, or helper(...) ==/!= constant
 		cond, neg := StripNot(iff.Cond)
-		cl, ok := Strip(cond).(*ssa.Call)
-		if !ok {
+		var cl *ssa.Call
+		var konst *ssa.Const // nil: boolean call, compared with true
+		if c, ok := Strip(cond).(*ssa.Call); ok {
+			cl = c
+		} else if op, x, y, okC := Cmp(cond); okC && (op == token.EQL || op == token.NEQ) {
+			c, ok1 := Strip(x).(*ssa.Call)
+			k, ok2 := Strip(y).(*ssa.Const)
+			if ok1 && ok2 {
+				cl, konst = c, k
+				neg = op == token.NEQ // Cmp already folded the negations into op
+			}
+		}
+		if cl == nil {
 			continue
 		}
 		h := cl.Call.StaticCallee()
-		if h == nil || !helperOK(h) || h == f || h.Signature.Results().Len() != 1 {
+		if h == nil || h.Blocks == nil || !helperOK(h) || h == f || h.Signature.Results().Len() != 1 {
 			continue
 		}
-		if bt, ok := h.Signature.Results().At(0).Type().Underlying().(*types.Basic); !ok || bt.Kind() != types.Bool {
+		if _, ok := h.Signature.Results().At(0).Type().Underlying().(*types.Basic); !ok {
 			continue
+		}
+		// does a returned constant equal the reference (true / K)?
+		matches := func(v ssa.Value) (isConst, eq bool) {
+			c, ok := Strip(v).(*ssa.Const)
+			if !ok || c.Value == nil {
+				// a string built by appending to a non-empty literal is not ""
+				if bo, isB := Strip(v).(*ssa.BinOp); isB && bo.Op == token.ADD && konst != nil && konst.Value != nil &&
+					konst.Value.Kind() == constant.String && constant.StringVal(konst.Value) == "" {
+					for _, o := range []ssa.Value{bo.X, bo.Y} {
+						if k, isK := Strip(o).(*ssa.Const); isK && k.Value != nil && k.Value.Kind() == constant.String && constant.StringVal(k.Value) != "" {
+							return true, false
+						}
+					}
+				}
+				return false, false
+			}
+			if konst == nil {
+				bv, isB := ConstBool(c)
+				return isB, bv
+			}
+			if konst.Value == nil || c.Value.Kind() != konst.Value.Kind() {
+				return false, false
+			}
+			return true, constant.Compare(c.Value, token.EQL, konst.Value)
 		}
 		for _, want := range []bool{true, false} {
-			// the edge taken when the helper returned `want`
-			idx := 0
-			if want == neg {
-				idx = 1
-			}
-			cut := map[Edge]bool{{b, b.Succs[idx]}: true}
-			if ReachAvoiding(f, f.Blocks[0], target, cut) != nil {
-				continue // the effect does not depend on this outcome
-			}
 			var rets []ssa.Instruction
 			Instrs(h, func(in ssa.Instruction) {
 				r, ok := in.(*ssa.Return)
 				if !ok || len(r.Results) != 1 || in.Block() == h.Recover {
 					return
 				}
-				if k, isC := ConstBool(r.Results[0]); isC && k != want {
+				if isC, eq := matches(r.Results[0]); isC && eq != want {
 					return
 				}
 				rets = append(rets, r)
@@ -957,15 +1052,57 @@ func viaPredicate(f *ssa.Function, effs []ssa.Instruction, pass []Lit, res *Gate
 			for _, p := range bound {
 				delete(paramBind, p)
 			}
-			if r2.OK {
-				res.PassEdges += r2.PassEdges
-				for i := range r2.PerLit {
-					if i < len(res.PerLit) {
-						res.PerLit[i] += r2.PerLit[i]
-					}
+			if !r2.OK || r2.PassEdges == 0 {
+				continue
+			}
+			// the edge taken when (result == reference) == want
+			idx := 0
+			if want == neg {
+				idx = 1
+			}
+			if cut == nil {
+				cut = map[Edge]bool{}
+			}
+			e := Edge{b, b.Succs[idx]}
+			if !cut[e] {
+				passEdges++
+			}
+			cut[e] = true
+			for i := range r2.PerLit {
+				if i < len(perLit) {
+					perLit[i] += r2.PerLit[i]
 				}
+			}
+		}
+	}
+	return cut, perLit, passEdges
+}
+
+// BetweenDeep: on every path that executes `from` and later `to` (both anywhere in
+// Reach(root)), an instruction satisfying isA — or a helper that always executes one — runs
+// in between. It holds trivially when `to` cannot execute after `from`.
+func BetweenDeep(root *ssa.Function, from, to ssa.Instruction, isA func(ssa.Instruction) bool) bool {
+	defer WithRoot(root)()
+	ca, cb := chainUp(root, from), chainUp(root, to)
+	for _, x := range ca {
+		for j, y := range cb {
+			if x.Parent() != y.Parent() {
+				continue
+			}
+			if x == y {
+				return false // `to` sits inside the helper that executes `from`: not decided here
+			}
+			if ReachInstrFrom(After(x), y, AfterCallCuts(from, x), deepB(isA, 0)) == nil {
 				return true
 			}
+			// not in the common frame: then on the way down to `to`
+			for k := j; k > 0; k-- {
+				inner := cb[k-1]
+				if Precedes(inner.Parent(), inner, deepB(isA, 0)) {
+					return true
+				}
+			}
+			return false
 		}
 	}
 	return false
